@@ -126,3 +126,10 @@ CLAIMED['C02'] = (
     'non-overlapping radii; strongly triclinic cells outside; z3.',
     'DESIGN.md §3 C02')
 NOT_APPLICABLE.pop('C02', None)
+CLAIMED['C17'] = (
+    'symbolic execution of ShapeAnalyzer.find_equivalent_positions / analyze_positions / analyze_trajectory with real pymatgen symmetry operations on symbolic site and position coordinates; z3 (NRA)',
+    'For every site coordinate and input coordinate along the scanned axis (incl. values next to cell faces) and every operation of the group: the number of collected points equals the number of '
+    '(operation, position) pairs within the radius, each point lies within the radius and its length equals the minimum-image distance of the source to the equivalent site; also after supercell folding.',
+    'Lattice.get_all_distances by contract; metric exactly invariant under the group (checked); one symbolic axis at a time, one position; groups with few operations; z3.',
+    'DESIGN.md §3 C17')
+NOT_APPLICABLE.pop('C17', None)
